@@ -31,7 +31,7 @@ func Fixed() []*Grammar {
 	// calc: the repository's example, actions as stub calls
 	add(&Grammar{ID: "calc", Tight: true, Seps: wsSeps,
 		Lex: append(letters(),
-			LexDef{Kind: LexToken, Name: "int64", Pattern: `'1'-'9' {_digit}`, Samples: []string{"1", "42", "907", "12345678"}},
+			LexDef{Kind: LexToken, Name: "int64", Pattern: `'1'-'9' {_digit}`, Samples: []string{"1", "42", "907", "12345678", "1234567890123456789012345678901234567890123"}},
 			ws()),
 		Prods: []*Prod{
 			P("Calc", Al(none, "Expr")),
@@ -44,7 +44,7 @@ func Fixed() []*Grammar {
 	add(&Grammar{ID: "bools", Tight: true, Seps: wsSeps,
 		Lex: append(letters(),
 			LexDef{Kind: LexToken, Name: "int_lit", Pattern: `_digit {_digit}`, Samples: []string{"0", "7", "15", "0099"}},
-			LexDef{Kind: LexToken, Name: "string_lit", Pattern: `'"' {_letter | _digit | ' '} '"'`, Samples: []string{`""`, `"a"`, `"abc def"`, `"x1"`}},
+			LexDef{Kind: LexToken, Name: "string_lit", Pattern: `'"' {_letter | _digit | ' '} '"'`, Samples: []string{`""`, `"a"`, `"abc def"`, `"x1"`, `"a string literal that is clearly longer than thirty two bytes"`}},
 			ws()),
 		Prods: []*Prod{
 			P("BoolExpr", Al(none, "BoolExpr1")),
@@ -303,7 +303,7 @@ func Fixed() []*Grammar {
 	// keywords: literals that look like identifiers
 	add(&Grammar{ID: "keywords", Tight: true, Seps: wsSeps,
 		Lex: append(letters(),
-			LexDef{Kind: LexToken, Name: "ident", Pattern: `_letter {_letter | _digit | '_'}`, Samples: []string{"a", "iff", "fo", "whiled", "i", "returns", "x_1"}},
+			LexDef{Kind: LexToken, Name: "ident", Pattern: `_letter {_letter | _digit | '_'}`, Samples: []string{"a", "iff", "fo", "whiled", "i", "returns", "x_1", "an_identifier_that_is_longer_than_thirty_two_bytes_1"}},
 			LexDef{Kind: LexToken, Name: "number", Pattern: `_digit {_digit} ['.' _digit {_digit}]`, Samples: []string{"0", "3.14", "10", "7.0"}},
 			ws()),
 		Prods: []*Prod{
